@@ -194,10 +194,17 @@ def user_fn(name, m, ret='vector'):
             return 1.5
         ats = [to_at(p) for p in pts]
         grid = ()
+        grids = []
         for a in ats:
             g = tuple(x for x in a.axes[:-1] if not isinstance(x, int))
+            grids.append(g)
             if len(g) > len(grid):
                 grid = g
+        if len(grid) > 1 and any(g != grid for g in grids):
+            # on a separable network the user's function is evaluated on the whole grid: every point argument (time, space)
+            # must be given at every grid node
+            raise Finding(f"user function {name} is called on a grid with arguments of different grid axes {grids} "
+                          f"(one of them is not the grid of points)")
         deps = set(grid)
         if not grid:
             for a in ats:
